@@ -5,7 +5,7 @@
    is the sub-list of in-use descriptors satisfying f, in table order. *)
 From Coq Require Import List ZArith Bool.
 From Coq.Init Require Import Byte.
-From Sif Require Import Bytes Store Format Image SelectFacts.
+From Sif Require Import Bytes Store Format Image SelectFacts Meta MetaFacts.
 Import ListNotations.
 Local Open Scope Z_scope.
 
@@ -83,6 +83,25 @@ Example C13_zero_first_on_f8 :
   get_descriptors f8_image [SID 0; SType DataDeffile] = inr EInvalidObjectID.
 Proof. vm_compute; reflexivity. Qed.
 
+(* What a selector looks at is what the public accessors report (Meta.v):
+   WithPartitionType(pt) selects exactly the objects whose PartitionMetadata()
+   reports pt, WithOCIBlobDigest(t) those whose OCIBlobDigest() is t,
+   WithGroupID / WithNoGroup those whose GroupID() is the number / zero,
+   WithLinkedID / WithLinkedGroupID those whose LinkedID() is (id, false) /
+   (group, true) - so an object link and a group link with equal numbers are
+   never confused. *)
+Theorem C13_selectors_agree_with_accessors : forall d,
+  (forall pt, sel_eval (SPartType pt) d = SMatch true <-> exists fs a, partition_metadata d = inl (fs, pt, a)) /\
+  (forall t, sel_eval (SOCIDigest t) d = SMatch true <-> oci_digest d = inl t) /\
+  (forall g, g <> 0 -> (sel_eval (SGroup g) d = SMatch true <-> group_of d = g)) /\
+  (sel_eval SNoGroup d = SMatch true <-> group_of d = 0) /\
+  (forall id, id <> 0 -> (sel_eval (SLinkedID id) d = SMatch true <-> linked_of d = (id, false))) /\
+  (forall g, g <> 0 -> (sel_eval (SLinkedGroup g) d = SMatch true <-> linked_of d = (g, true))).
+Proof.
+  exact (fun d => conj (sel_parttype_iff d) (conj (sel_oci_digest_iff d) (conj (sel_group_iff d)
+        (conj (sel_nogroup_iff d) (conj (sel_linked_iff d) (sel_linked_group_iff d)))))).
+Qed.
+
 Print Assumptions C13_exact.
 Print Assumptions C13_total.
 Print Assumptions C13_errors_are_real.
@@ -90,3 +109,4 @@ Print Assumptions C13_single.
 Print Assumptions C13_empty_image.
 Print Assumptions C13_zero_is_error.
 Print Assumptions C13_zero_after_rejecting_selector_refuted.
+Print Assumptions C13_selectors_agree_with_accessors.
